@@ -71,7 +71,7 @@ def build(pkg, race):
     cmd.append("./" + pkg)
     t0 = time.time()
     p = subprocess.run(cmd, cwd=HARNESS, env=goenv(), stdout=subprocess.PIPE,
-                       stderr=subprocess.STDOUT, text=True)
+                       stderr=subprocess.STDOUT, text=True, errors="replace")
     if p.returncode != 0:
         log("BUILD FAILED (%s):\n%s" % (" ".join(cmd), p.stdout[-6000:]))
         return None
@@ -193,7 +193,7 @@ def main():
                 shutil.copy(path, os.path.join(corpus, name))
             p = subprocess.run(["go", "test", "-tags", "verif", "-vet=off", "-run", "^%s$/%s$" % (fz["target"], name),
                                 "./" + cfg["pkg"]], cwd=HARNESS, env=base_env("replay"),
-                               stdout=subprocess.PIPE, stderr=subprocess.STDOUT, text=True)
+                               stdout=subprocess.PIPE, stderr=subprocess.STDOUT, text=True, errors="replace")
             print(p.stdout[-6000:])
             shutil.rmtree(scratch, ignore_errors=True)
             if p.returncode == 0:
@@ -209,7 +209,7 @@ def main():
         env["VERIF_REPLAY"] = path
         p = subprocess.run([binp, "-test.run", "^TestReplay$", "-test.v", "-test.timeout", "600s"],
                            env=env, cwd=os.path.join(HARNESS, cfg["pkg"]),
-                           stdout=subprocess.PIPE, stderr=subprocess.STDOUT, text=True)
+                           stdout=subprocess.PIPE, stderr=subprocess.STDOUT, text=True, errors="replace")
         print(p.stdout[-8000:])
         shutil.rmtree(scratch, ignore_errors=True)
         if p.returncode == 0:
@@ -246,7 +246,7 @@ def main():
         env["VERIF_REPLAY"] = rf
         anybin = bins.get(False) or bins.get(True)
         p = subprocess.run([anybin, "-test.run", "^TestReplay$", "-test.timeout", "600s"], env=env,
-                           cwd=pkgdir, stdout=subprocess.PIPE, stderr=subprocess.STDOUT, text=True)
+                           cwd=pkgdir, stdout=subprocess.PIPE, stderr=subprocess.STDOUT, text=True, errors="replace")
         if p.returncode != 0:
             if "property %s violated" % pid in p.stdout:
                 violations.append((rf, p.stdout[-3000:]))
@@ -315,7 +315,7 @@ def main():
         t0 = time.time()
         try:
             p = subprocess.run(cmd, cwd=HARNESS, env=env, stdout=subprocess.PIPE, stderr=subprocess.STDOUT,
-                               text=True, timeout=secs + 600)
+                               text=True, errors="replace", timeout=secs + 600)
             out, rc = p.stdout, p.returncode
         except subprocess.TimeoutExpired as e:
             out, rc = (e.stdout or ""), "timeout"
@@ -416,4 +416,11 @@ def main():
 
 
 if __name__ == "__main__":
-    main()
+    try:
+        main()
+    except SystemExit:
+        raise
+    except BaseException:  # a crash of the driver is "broken" (2), never a verdict (1)
+        import traceback
+        traceback.print_exc()
+        sys.exit(2)
